@@ -55,7 +55,19 @@ Proof.
 Qed.
 
 End C17.
+(* several samplers (each with its own D) in one process, called in any order, e.g. from several threads: the pool is
+   unchanged and call i, made on sampler k, returns what sampler k returns for that operation alone *)
+Theorem C17_many_samplers : forall {C T : Type} (SC : Scalar C C) (S : Scalar C T)
+    (igam_impl : C -> C -> nat -> C -> res C) (c_is_value : C -> bool)
+    (p : pool (C:=C)) (calls : list (nat * op (C:=C) (T:=T))) i k o d s,
+  nth_error calls i = Some (k, o) -> nth_error p k = Some (d, s) ->
+  fst (run_pool SC S igam_impl c_is_value p calls) = p /\
+  nth_error (snd (run_pool SC S igam_impl c_is_value p calls)) i = Some (Some (Api.answer SC S igam_impl c_is_value d s o)) /\
+  snd (Api.run SC S igam_impl c_is_value d s [o]) = [Api.answer SC S igam_impl c_is_value d s o].
+Proof. intros C T SC S igam_impl c_is_value. exact (run_pool_nth SC S igam_impl c_is_value). Qed.
+
 Print Assumptions C17_state_and_function.
+Print Assumptions C17_many_samplers.
 Print Assumptions C17_interleavings.
 Print Assumptions C17_rng.
 Print Assumptions C17_flags.
